@@ -124,6 +124,29 @@ func (a Auth) JSON() []byte {
 		a.ID, jsonBytes(a.Pub[:]), jsonFloat(a.Lat), jsonFloat(a.Long), a.Capacity, a.Debt, a.Expiration, a.Initialization, a.Fee, jsonBytes(a.Sig[:])))
 }
 
+// SparseJSON is the same authorization as JSON() with every member whose value
+// is zero left out (a JSON decoder gives an absent member its zero value), the
+// members in another order and some white space: an equivalent request body.
+func (a Auth) SparseJSON() []byte {
+	var m []string
+	add := func(name, val string, zero bool) {
+		if !zero {
+			m = append(m, fmt.Sprintf("%q : %s", name, val))
+		}
+	}
+	add("Signature", string(jsonBytes(a.Sig[:])), false)
+	add("ProtocolFee", fmt.Sprint(a.Fee), a.Fee == 0)
+	add("Initialization", fmt.Sprint(a.Initialization), a.Initialization == 0)
+	add("Expiration", fmt.Sprint(a.Expiration), a.Expiration == 0)
+	add("Debt", fmt.Sprint(a.Debt), a.Debt == 0)
+	add("Capacity", fmt.Sprint(a.Capacity), a.Capacity == 0)
+	add("Longitude", string(jsonFloat(a.Long)), math.Float64bits(a.Long) == 0)
+	add("Latitude", string(jsonFloat(a.Lat)), math.Float64bits(a.Lat) == 0)
+	add("PublicKey", string(jsonBytes(a.Pub[:])), false)
+	add("ShortID", fmt.Sprint(a.ID), a.ID == 0)
+	return []byte("{ " + strings.Join(m, ",\n  ") + " }\n")
+}
+
 // ---------------------------------------------------------------- registration
 
 type Registration struct {
